@@ -93,6 +93,8 @@ def same_violation(a, b, sym):
         return False
     if a.get("cls") != b.get("cls"):
         return False
+    if a.get("func") != b.get("func"):
+        return False
     sa, sb = a.get("site"), b.get("site")
     if sa and sb and sym:
         return sym.func(sa) == sym.func(sb)
